@@ -142,6 +142,13 @@ def remove_file(rel):
     return f
 
 
+def add_file(rel, text):
+    def f(repo):
+        with open(os.path.join(repo, rel), "w") as fh:
+            fh.write(text)
+    return f
+
+
 def _func(tree, name):
     return [n for n in ast.walk(tree) if isinstance(n, ast.FunctionDef) and n.name == name][0]
 
@@ -353,6 +360,8 @@ CASES = {
             ("poll loop <", [sub(KD, "- start_time <= timeout:", "- start_time < timeout:")]),
             ("timeout switch 0", [sub(KD, "if timeout == -1:", "if timeout == 0:")]),
             ("flag no longer under is_alive", [sub(KD, "                            if p.is_alive():\n", "                            if True:\n")]),
+            ("threshold re-bound from another module", [
+                add_file("osaca/tuning.py", "from osaca.semantics.kernel_dg import KernelDG\n\nKernelDG.INSTRUCTION_THRESHOLD = 10\n")]),
             ("poll decision inverted", [sub(KD, POLL_IF, "if not any(p.is_alive() for p in processes):")]),
         ],
     },
@@ -420,6 +429,9 @@ CASES = {
             ("latency comparison strict", [sub(DB, "math.floor(measurement) * 1.05 >= measurement", "math.floor(measurement) * 1.05 > measurement")]),
             ("floor and ceil exchanged", [sub(DB, "math.floor(measurement) * 1.05 >= measurement\n            or math.ceil(measurement) * 0.95",
                                                "math.ceil(measurement) * 1.05 >= measurement\n            or math.floor(measurement) * 0.95")]),
+            ("module constant re-bound through global", [
+                sub(DB, "def _validate_measurement(", "_TOL_HI = 1.05\n\n\ndef _set_tolerance(x):\n    global _TOL_HI\n    _TOL_HI = x\n\n\ndef _validate_measurement("),
+                sub(DB, "math.floor(measurement) * 1.05", "math.floor(measurement) * _TOL_HI")]),
             ("tag -TP -> TP", [sub(DB, 'endswith("-TP")', 'endswith("TP")')]),
             ("key of 3 fields", [sub(DB, '.split("-")[:2])', '.split("-")[:3])')]),
             ("dispatch by substring", [sub(DB, 'instruction.rstrip().endswith("-TP")', '"-TP" in instruction'),
@@ -707,6 +719,64 @@ class UnElse(ast.NodeTransformer):
         return node
 
 
+class _Blocks(ast.NodeTransformer):
+    def block(self, stmts):
+        raise NotImplementedError
+
+    def generic_visit(self, node):
+        super().generic_visit(node)
+        for f in ("body", "orelse", "finalbody"):
+            b = getattr(node, f, None)
+            if isinstance(b, list) and b and isinstance(b[0], ast.stmt):
+                setattr(node, f, self.block(b))
+        if isinstance(node, ast.Try):
+            for h in node.handlers:
+                h.body = self.block(h.body)
+        return node
+
+
+class CompToLoop(_Blocks):
+    """x = [e for t in it if c]  ->  x = []; for t in it: if c: x.append(e)"""
+    def block(self, stmts):
+        out = []
+        for s in stmts:
+            if isinstance(s, ast.Assign) and len(s.targets) == 1 and isinstance(s.targets[0], ast.Name) \
+                    and isinstance(s.value, ast.ListComp) and len(s.value.generators) == 1 \
+                    and not any(isinstance(n, ast.Name) and n.id == s.targets[0].id for n in ast.walk(s.value)):
+                lc, g, nm = s.value, s.value.generators[0], s.targets[0].id
+                body = [ast.Expr(value=ast.Call(func=ast.Attribute(value=ast.Name(id=nm, ctx=ast.Load()), attr="append",
+                                                                   ctx=ast.Load()), args=[lc.elt], keywords=[]))]
+                for c in reversed(g.ifs):
+                    body = [ast.If(test=c, body=body, orelse=[])]
+                out.append(ast.Assign(targets=[ast.Name(id=nm, ctx=ast.Store())], value=ast.List(elts=[], ctx=ast.Load())))
+                out.append(ast.For(target=g.target, iter=g.iter, body=body, orelse=[]))
+            else:
+                out.append(s)
+        return out
+
+
+class HoistArgs(_Blocks):
+    """x = f(g(a), b[i])  ->  _h1 = g(a); _h2 = b[i]; x = f(_h1, _h2)   (plain function calls, leading arguments)"""
+    k = 0
+
+    def block(self, stmts):
+        out = []
+        for s in stmts:
+            v = getattr(s, "value", None) if isinstance(s, (ast.Assign, ast.Return)) else None
+            if isinstance(v, ast.Call) and not any(isinstance(a, ast.Starred) for a in v.args) \
+                    and not isinstance(v.func, ast.Attribute):
+                for i, a in enumerate(v.args):
+                    if isinstance(a, (ast.Call, ast.BinOp, ast.Subscript)):
+                        HoistArgs.k += 1
+                        nm = "_h%d" % HoistArgs.k
+                        out.append(ast.Assign(targets=[ast.Name(id=nm, ctx=ast.Store())], value=a))
+                        v.args[i] = ast.Name(id=nm, ctx=ast.Load())
+                    elif not isinstance(a, (ast.Constant, ast.Name)):
+                        break
+            out.append(s)
+        return out
+
+
 GENERIC = [
     ("ast.unparse round trip (quotes, parentheses, comments, layout)", lambda t: t),
     ("every literal respelt (\"\" + s, n + 0, x * 1)", lambda t: Respell().visit(t)),
@@ -717,6 +787,8 @@ GENERIC = [
     ("De Morgan on every test", lambda t: DeMorgan().visit(t)),
     ("self.CONST -> Class.CONST", lambda t: ClassConst().visit(t)),
     ("else after an exiting branch -> guard clause", lambda t: UnElse().visit(t)),
+    ("every assigned list comprehension -> append loop", lambda t: CompToLoop().visit(t)),
+    ("call arguments hoisted into locals", lambda t: HoistArgs().visit(t)),
 ]
 
 
